@@ -157,7 +157,7 @@ impl Check for C02Check {
         "C02"
     }
     fn n_cases(&self, ctx: &Ctx) -> u64 {
-        systematic_count() + ctx.tier.sel(2500, 60_000)
+        systematic_count() + ctx.tier.sel(12_000, 150_000)
     }
     fn describe(&self, ctx: &Ctx, idx: u64) -> Value {
         let c = make_case(ctx, idx);
